@@ -410,7 +410,23 @@ func (e *Exec) libDefault(fr *Frame, st *State, key string, args []Val, sig *typ
 	} else {
 		e.sc.used["pure library function (no effect on verified state): "+key] = true
 	}
-	return e.resultVal(st, "lib", sig)
+	res := e.resultVal(st, "lib", sig)
+	// path flags succeeded("key") / called("key") also work for library calls named in the contract
+	if e.calledNamed[key] {
+		e.hset(st, e.calledFlag(key), "true")
+	}
+	if e.succNamed[key] {
+		var last Val
+		if res.Tuple != nil {
+			last = res.Tuple[len(res.Tuple)-1]
+		} else {
+			last = res
+		}
+		if sig.Results().Len() > 0 && isErrorType(sig.Results().At(sig.Results().Len()-1).Type()) {
+			e.hset(st, e.succFlag(key), eq(last.T, "nil_iface"))
+		}
+	}
+	return res
 }
 
 func (e *Exec) havocReachable(st *State, a Val) {
@@ -449,7 +465,8 @@ var pureLibPrefixes = []string{
 	"github.com/sirupsen/logrus.", "(*github.com/sirupsen/logrus.", "(github.com/sirupsen/logrus.",
 	"fmt.Errorf", "fmt.Sprintf", "fmt.Sprint", "errors.New", "errors.Is", "(error).Error",
 	"time.Now", "time.Sleep", "time.Since", "time.Until", "time.AfterFunc", "(*time.Timer).Stop",
-	"encoding/base64.", "(*encoding/base64.Encoding).EncodeToString",
+	"encoding/base64.", "(*encoding/base64.Encoding).EncodeToString", "(*encoding/base64.Encoding).DecodeString",
+	"github.com/gorilla/mux.Vars", "encoding/json.NewDecoder", "encoding/json.Marshal", "(net.IP).String",
 	"strings.", "net.JoinHostPort", "net.SplitHostPort", "(net.Addr).String", "(net.Addr).Network",
 	"(net.Conn).RemoteAddr", "(net.Conn).LocalAddr", "(net.Conn).SetReadDeadline", "(net.Conn).SetDeadline", "(net.Conn).SetWriteDeadline",
 	"strconv.", "math/big.NewInt", "(time.Time).", "(time.Duration).",
@@ -1200,6 +1217,8 @@ func (e *Exec) rawModMaps(c *Clause) []string {
 			e.heapMap(n, "(Array Int Bool)")
 		case n == "E_Int":
 			e.elemHeap(types.Typ[types.Byte])
+		case strings.HasPrefix(n, "GD_"):
+			e.dbMaps()
 		}
 		if _, ok := e.heapSort[n]; !ok {
 			return nil // not touched by this unit (yet): nothing to preserve or havoc
